@@ -54,6 +54,12 @@ fn cdata_contents(mut t: &str) -> Option<String> {
         return None;
     }
     while !t.is_empty() {
+        if let Some(rest) = t.strip_prefix("&#xD;") {
+            // a carriage return is written as a reference between sections
+            out.push('\r');
+            t = rest;
+            continue;
+        }
         t = t.strip_prefix("<![CDATA[")?;
         let end = t.find("]]>")?;
         out.push_str(&t[..end]);
